@@ -48,7 +48,7 @@ class Prop(object):
             'One state = one configuration tuple; distinct by construction.')
     ASSUMPTIONS = ['refpgp.s2k follows RFC 4880 3.7.1 (self-tested against GnuPG-made passphrase-protected fixtures)',
                    'hashlib digests are correct (shared trusted base)']
-    CASE_TIMEOUT = 300
+    CASE_TIMEOUT = 900
 
     def bound(self, tier):
         return {'full_count_sweep': self._sweeps(tier), 'count_edges': COUNT_EDGES}
@@ -232,7 +232,7 @@ class Prop(object):
             second = self._seq_configs(case['hash'], case['spec'])
             first = self._seq_configs(case['hash'])
             pairs = [(a, b) for a in first for b in second if a != b]
-            modes = ['fresh', 'reuse']
+            modes = ['fresh', 'reuse', 'copy']
         for a, b in pairs:
             for mode in modes:
                 r.states += 1
@@ -241,8 +241,15 @@ class Prop(object):
                     s1 = String2Key()
                     want_a = self._configure(s1, a)
                     got_a = bytes(s1.derive_key(self.SEQ_PASS[a[4]]))
-                    s2 = s1 if mode == 'reuse' else String2Key()
+                    s2 = s1 if mode in ('reuse', 'copy') else String2Key()
                     want_b = self._configure(s2, b)
+                    if mode == 'copy':
+                        # a copy of a specifier is the same specifier: same octets, same derived key
+                        import copy as _copy
+                        s3 = _copy.copy(s2)
+                        if bytes(s3.__bytearray__()) != bytes(s2.__bytearray__()):
+                            raise AssertionError('a copy of the specifier serialises differently: %s vs %s' % (bytes(s3.__bytearray__()).hex(), bytes(s2.__bytearray__()).hex()))
+                        s2 = s3
                     got_b = bytes(s2.derive_key(self.SEQ_PASS[b[4]]))
                     bad = 'first' if got_a != want_a else ('second' if got_b != want_b else None)
                     info = 'first got %s want %s; second got %s want %s' % (got_a.hex(), want_a.hex(), got_b.hex(), want_b.hex())
@@ -251,7 +258,7 @@ class Prop(object):
                 r.outcomes['sequence:' + (bad or 'ok')] += 1
                 if bad:
                     r.viol('sequence', {'kind': 'sequence-' + bad, 'mode': mode, 'same_size': a[2] == b[2]}, {'pair': [a, b], 'mode': mode},
-                           'derivation %r then %r (%s specifier objects): %s' % (a, b, 'one re-configured' if mode == 'reuse' else 'two fresh', info))
+                           'derivation %r then %r (%s): %s' % (a, b, {'reuse': 'one specifier object re-configured', 'fresh': 'two fresh specifier objects', 'copy': 'second derivation on a copy of the re-configured object'}[mode], info))
         r.dim('hash', case.get('hash', pairs[0][0][1]))
         r.samples.append({'pair': [pairs[-1][0], pairs[-1][1]], 'modes': modes})
         return r
